@@ -351,7 +351,18 @@ func (l *c04Life) run() {
 
 	// batch 1
 	var hist []c04Ev
-	nSecond := 0
+	nSecond, nShifted := 0, 0
+	// the cheater's second-level transactions: one per HTLC (1-in/1-out), or - on
+	// channel types whose second-level signatures are SIGHASH_SINGLE|ANYONECANPAY
+	// (anchors, zero-fee, lease, taproot) - several HTLC outputs AGGREGATED into one
+	// transaction, inputs in random order, output i paired with input i, optionally
+	// with a fee-paying wallet input + change output in front (all indexes shift by
+	// one) or at the end
+	type c04Adv struct {
+		hr  *lnwallet.HtlcRetribution
+		stx *wire.MsgTx
+	}
+	var advs []c04Adv
 	for i := range br.HtlcRetributions {
 		hr := &br.HtlcRetributions[i]
 		if l.r.Intn(3) == 0 {
@@ -361,14 +372,59 @@ func (l *c04Life) run() {
 		if err != nil {
 			continue
 		}
-		hash := stx.TxHash()
-		names.second[wire.OutPoint{Hash: hash, Index: 0}] = int(hr.OutPoint.Index)
-		prev[wire.OutPoint{Hash: hash, Index: 0}] = stx.TxOut[0]
-		op := hr.OutPoint
-		hist = append(hist, c04Ev{op: op, detail: &chainntnfs.SpendDetail{
-			SpentOutPoint: &op, SpenderTxHash: &hash, SpendingTx: stx,
-			SpenderInputIndex: 0, SpendingHeight: 778}})
-		nSecond++
+		advs = append(advs, c04Adv{hr, stx})
+	}
+	l.r.Shuffle(len(advs), func(a, b int) { advs[a], advs[b] = advs[b], advs[a] })
+	for len(advs) > 0 {
+		n := 1
+		extra := 0 // 0 none, 1 wallet input + change in front, 2 at the end
+		if vst.ChanType.HasAnchors() {
+			if len(advs) > 1 && l.r.Intn(3) != 0 {
+				n = 2 + l.r.Intn(len(advs)-1)
+			}
+			extra = l.r.Intn(3)
+		}
+		group := advs[:n]
+		advs = advs[n:]
+		agg := group[0].stx
+		base := uint32(0)
+		if n > 1 || extra != 0 {
+			agg = wire.NewMsgTx(2)
+			wIn := &wire.TxIn{PreviousOutPoint: wire.OutPoint{Hash: ctTx.TxHash(), Index: 7777},
+				Witness: wire.TxWitness{{1}, {2}}}
+			wOut := &wire.TxOut{Value: 12345, PkScript: []byte{0x00, 0x14, 1, 2, 3, 4, 5, 6, 7, 8, 9,
+				10, 11, 12, 13, 14, 15, 16, 17, 18, 19, 20}}
+			if extra == 1 {
+				agg.AddTxIn(wIn)
+				agg.AddTxOut(wOut)
+				base = 1
+			}
+			for _, g := range group {
+				agg.AddTxIn(g.stx.TxIn[0])
+				agg.AddTxOut(g.stx.TxOut[0])
+				if g.stx.LockTime > agg.LockTime {
+					agg.LockTime = g.stx.LockTime
+				}
+			}
+			if extra == 2 {
+				agg.AddTxIn(wIn)
+				agg.AddTxOut(wOut)
+			}
+		}
+		hash := agg.TxHash()
+		for gi, g := range group {
+			idx := base + uint32(gi)
+			names.second[wire.OutPoint{Hash: hash, Index: idx}] = int(g.hr.OutPoint.Index)
+			prev[wire.OutPoint{Hash: hash, Index: idx}] = agg.TxOut[idx]
+			op := g.hr.OutPoint
+			hist = append(hist, c04Ev{op: op, detail: &chainntnfs.SpendDetail{
+				SpentOutPoint: &op, SpenderTxHash: &hash, SpendingTx: agg,
+				SpenderInputIndex: idx, SpendingHeight: 778}})
+			nSecond++
+			if idx > 0 {
+				nShifted++
+			}
+		}
 	}
 	if txs1.spendCommitOuts != nil && l.r.Intn(2) == 0 {
 		jt := txs1.spendCommitOuts.justiceTx
@@ -466,8 +522,8 @@ func (l *c04Life) run() {
 			l.emitJustice("r3", &justiceTxVariants{spendAll: txs3.spendAll}, prev)
 		}
 	}
-	fmt.Fprintf(l.w, "lifeend ctx=%s left=%s second=%d => %d\n", l.ctx,
-		c04BoList(names, ret.breachedOutputs), nSecond, len(ret.breachedOutputs))
+	fmt.Fprintf(l.w, "lifeend ctx=%s left=%s second=%d shifted=%d => %d\n", l.ctx,
+		c04BoList(names, ret.breachedOutputs), nSecond, nShifted, len(ret.breachedOutputs))
 	if len(ret.breachedOutputs) == 0 {
 		// cleanupBreach
 		if err := l.store.rs.Remove(&vst.FundingOutpoint); err != nil {
